@@ -28,6 +28,11 @@ var corruptionClasses = []string{
 	// self-referencing and the cascade-delete fk index, the second fk constraint
 	"unique-missing-child", "unique-extra-child", "unique-missing-nick",
 	"fk-missing-backref-mentees", "fk-extra-backref-badges", "fk-missing-backref-badges", "fkc-dangling-memo", "fkc-dangling-ticket",
+	// the fk constraint that does not allow null: a nil value, and (under fkc-dangling-memo) a dangling value nobody can repair
+	"fkc-nil-memo",
+	// several rows of one store referencing the SAME absent target; a link kept on one side while the other end has
+	// no link bucket at all (it was never linked / the whole bucket was lost)
+	"fkc-dangling-pair", "link-one-sided-nobucket",
 	// two corruptions on the same index key: every entry of the key is stale AND its real holders are missing from it
 	"set-key-all-stale-holders-missing",
 }
@@ -345,6 +350,73 @@ func (r *Run) applyCorruptions(tx *bbolt.Tx, m *Model, list []Corruption) []appl
 			put(mustBucket(tx, false, rootBucket, StNotes, n), []byte("about"), typedStr(g))
 			out = append(out, appliedCorruption{c: c, desc: "note " + n + ".about -> absent " + g,
 				expect: [][]string{{"notes.about has invalid value for note " + n + ", which references invalid people " + g}}})
+		case "fkc-dangling-pair":
+			store, field, ids, target := StNotes, "about", keysOf(m.Notes), "people"
+			switch c.N % 3 {
+			case 1:
+				store, field, ids, target = StTickets, "assignee", keysOf(m.Tickets), "people"
+			case 2:
+				store, field, ids, target = StMemos, "topic", keysOf(m.Memos), "group"
+			}
+			var rows []string
+			for _, id := range ids {
+				if !used[id] && len(rows) < 3 {
+					rows = append(rows, id)
+				}
+			}
+			if len(rows) < 2 {
+				continue
+			}
+			g := ghost()
+			ac := appliedCorruption{c: c, desc: store + " " + strings.Join(rows, ",") + "." + field + " -> the same absent " + g}
+			for _, id := range rows {
+				take(id)
+				put(mustBucket(tx, false, rootBucket, store, id), []byte(field), typedStr(g))
+				exp := []string{store + "." + field + " has invalid value for " + boltz.GetSingularEntityType(store) + " " + id + ", which references invalid " + target + " " + g}
+				ac.expect = append(ac.expect, exp)
+				if store == StMemos {
+					ac.unfixable = append(ac.unfixable, exp)
+					ac.mirrorOK = []string{"fk-dangling:memos.topic->groups"}
+				}
+			}
+			out = append(out, ac)
+		case "link-one-sided-nobucket":
+			// a person without any link gets a forward entry towards an existing group that has no members bucket entry
+			// for it; if the group has no other member its whole bucket is dropped as well
+			var ps, gs []string
+			for _, p := range people {
+				if !used[p] {
+					ps = append(ps, p)
+				}
+			}
+			for g := range m.Groups {
+				lonely := true
+				for k := range m.Links {
+					if k.G == g {
+						lonely = false
+					}
+				}
+				if lonely && !used[g] {
+					gs = append(gs, g)
+				}
+			}
+			sort.Strings(gs)
+			if len(ps) == 0 || len(gs) == 0 {
+				continue
+			}
+			p, g := ps[c.N%len(ps)], gs[c.N%len(gs)]
+			if m.Links[pair{p, g}] || used["link:"+p+"|"+g] || !take(g) {
+				continue
+			}
+			used["link:"+p+"|"+g] = true
+			if gb := mustBucket(tx, false, rootBucket, StGroups, g); gb != nil && gb.Bucket([]byte("members")) != nil {
+				if err := gb.DeleteBucket([]byte("members")); err != nil {
+					panic(err)
+				}
+			}
+			put(mustBucket(tx, true, rootBucket, StPeople, p, "groups"), typedKey(g), nil)
+			out = append(out, appliedCorruption{c: c, desc: "link " + p + "->" + g + " added on one side only, the group has no members bucket",
+				expect: [][]string{{"people " + p + " references group " + g + ", but reverse link is missing"}}})
 		case "link-one-sided", "link-one-sided-g":
 			var cands []pair
 			for k := range m.Links {
@@ -460,8 +532,23 @@ func (r *Run) applyCorruptions(tx *bbolt.Tx, m *Model, list []Corruption) []appl
 			}
 			g := ghost()
 			put(mustBucket(tx, false, rootBucket, store, id), []byte(field), typedStr(g))
-			out = append(out, appliedCorruption{c: c, desc: store + " " + id + "." + field + " -> absent " + g,
-				expect: [][]string{{store + "." + field + " has invalid value for " + boltz.GetSingularEntityType(store) + " " + id + ", which references invalid " + target + " " + g}}})
+			exp := []string{store + "." + field + " has invalid value for " + boltz.GetSingularEntityType(store) + " " + id + ", which references invalid " + target + " " + g}
+			ac := appliedCorruption{c: c, desc: store + " " + id + "." + field + " -> absent " + g, expect: [][]string{exp}}
+			if store == StMemos {
+				// memos.topic is not nullable: clearing the field is no repair, the conflict stays reported
+				ac.unfixable = [][]string{exp}
+				ac.mirrorOK = []string{"fk-dangling:memos.topic->groups"}
+			}
+			out = append(out, ac)
+		case "fkc-nil-memo":
+			id, ok := pickFrom(c, keysOf(m.Memos))
+			if !ok || !take(id) {
+				continue
+			}
+			put(mustBucket(tx, false, rootBucket, StMemos, id), []byte("topic"), []byte{byte(boltz.TypeNil)})
+			nilRep := []string{"memos.topic is non-nillable, but memo with id " + id + " has nil value"}
+			out = append(out, appliedCorruption{c: c, desc: "memo " + id + ".topic set to nil (not nullable)",
+				expect: [][]string{nilRep}, unfixable: [][]string{nilRep}, mirrorOK: []string{"fk-null-nonnullable:memos.topic"}})
 		case "dup-unique":
 			if len(people) < 2 {
 				continue
